@@ -4,7 +4,7 @@ use krp_harness::{chain, dump, gen, grid, kernel, ops, run_ops_text};
 
 fn usage() -> ! {
     eprintln!(
-        "usage:\n  krp-harness run OPSFILE          (OPSFILE `-` = stdin)\n  krp-harness kernel NAME SEED COUNT   (NAME = deleg|undeleg|ddiv|nwr|swapinfo|drewards)\n  krp-harness gen PROFILE SEED NHIST LEN OPSFILE OBSFILE   (PROFILE = general|pricing|unbond|rewards|registry|token|config|pause|exit|synth)\n  krp-harness grid OPSFILE OBSFILE   (authorisation grid)\n  krp-harness kernel-eval NAME     (stdin: `ARGS` lines; prints `ARGS => RESULT` from the real code)\n  krp-harness roundtrip OPSFILE    (parse and re-print every operation)\n  krp-harness explain OPSFILE      (like run, but prints op lines and failure reasons; diagnostics only)\n  krp-harness canon-order          (ADDRS in ascending byte order of their canonical addresses: the iteration order of maps keyed by canonical address; table embedded in ocaml/driver.ml)\nenvironment: KRP_NO_CACHE=1 disables the (sound) memoisation of dump fragments"
+        "usage:\n  krp-harness run OPSFILE          (OPSFILE `-` = stdin)\n  krp-harness kernel NAME SEED COUNT   (NAME = deleg|undeleg|ddiv|nwr|swapinfo|drewards)\n  krp-harness gen PROFILE SEED NHIST LEN OPSFILE OBSFILE   (PROFILE = general|pricing|unbond|rewards|registry|token|config|pause|exit|synth)\n  krp-harness grid OPSFILE OBSFILE   (authorisation grid)\n  krp-harness kernel-eval NAME     (stdin: `ARGS` lines; prints `ARGS => RESULT` from the real code)\n  krp-harness roundtrip OPSFILE    (parse and re-print every operation)\n  krp-harness explain OPSFILE      (like run, but prints op lines and failure reasons; diagnostics only)\n  krp-harness surface [--defs]     (message surface of the six contracts from the entry points' own types: `CONTRACT.KIND VARIANT FIELD:TYPE ...`, sorted; --defs: also the named definitions)\n  krp-harness surface-probe CONTRACT VARIANT [--why]   (send a schema-generated instance of that execute variant from several senders, running / hub paused; prints outcome and dump diff)\n  krp-harness canon-order          (ADDRS in ascending byte order of their canonical addresses: the iteration order of maps keyed by canonical address; table embedded in ocaml/driver.ml)\nenvironment: KRP_NO_CACHE=1 disables the (sound) memoisation of dump fragments"
     );
     std::process::exit(2);
 }
@@ -190,6 +190,29 @@ fn main() {
             let stride: u64 = if args.len() == 4 { args[3].parse().unwrap_or_else(|_| usage()) } else { 1 };
             let text = read_input(&args[2]);
             if let Err(e) = krp_harness::probe::run(&text, stride, &mut w) {
+                eprintln!("krp-harness: {}", e);
+                std::process::exit(2);
+            }
+        }
+        "surface" => {
+            // surface [--defs]
+            let with_defs = match args.len() {
+                2 => false,
+                3 if args[2] == "--defs" => true,
+                _ => usage(),
+            };
+            for l in krp_harness::surface::surface_lines(with_defs) {
+                writeln!(w, "{}", l).unwrap();
+            }
+        }
+        "surface-probe" => {
+            // surface-probe CONTRACT VARIANT [--why]
+            let why = match args.len() {
+                4 => false,
+                5 if args[4] == "--why" => true,
+                _ => usage(),
+            };
+            if let Err(e) = krp_harness::surface::probe(&args[2], &args[3], why, &mut w) {
                 eprintln!("krp-harness: {}", e);
                 std::process::exit(2);
             }
